@@ -664,6 +664,78 @@ WRITER_OPTS = [{}, {}, {}, {"dup": "ignore"}, {"dup": "acc"}, {"lines": 0}, {"co
                {"cont": {}, "pre": []}]
 
 
+MVA_CONFIGS = {"default": "default", "custom": {"*": ["id", "title"], "a": ["href"], "td": ["k"]}, "empty": {}, "star-only": {"*": ["class"]}}
+MVA_NAMES = ["class", "rel", "rev", "headers", "accesskey", "accept-charset", "id", "title", "href", "k"]
+MVA_VALUES = ["", " ", "a b", " a  b\t", "a\nb\x0cc", "a", "\x0b", "a\u00a0b", "a\u2003b", "x  y  x", "\n", "a&amp;b c", "A a"]
+
+
+def mva_parse(text, mva):
+    from bs4 import BeautifulSoup
+    kw = {} if mva == "default" else {"multi_valued_attributes": mva}
+    with warnings.catch_warnings():
+        warnings.simplefilter("ignore")
+        return BeautifulSoup(text, "html.parser", **kw)
+
+
+def mva_compare(text, cfgname):
+    """The multi_valued_attributes option changes exactly this: the values of the attributes the table names (for every element: "*",
+    for one element name: its own entry) are the lists of their whitespace-separated tokens - the empty / missing value the EMPTY list -
+    and everything else in the tree is what the parse without the option gives (which the streams above tie to the markup)."""
+    from bs4.builder import HTMLTreeBuilder
+    mva = MVA_CONFIGS[cfgname]
+    table = HTMLTreeBuilder.DEFAULT_CDATA_LIST_ATTRIBUTES if mva == "default" else mva
+    a, b = real_parse(text, {}), mva_parse(text, mva)
+    if c03.shape(a) != c03.shape(b):
+        return f"elements / strings differ: {c03.shape(b)[:200]} with the option, {c03.shape(a)[:200]} without"
+    for ta, tb in zip(a.find_all(True), b.find_all(True)):
+        if list(ta.attrs) != list(tb.attrs):
+            return f"<{ta.name}>: attribute names {list(tb.attrs)} with the option, {list(ta.attrs)} without"
+        multi = set(table.get("*", [])) | set(table.get(ta.name.lower(), []) or [])
+        for k, va in ta.attrs.items():
+            vb = tb.attrs[k]
+            if k in multi and isinstance(va, str):
+                if not isinstance(vb, list) or list(vb) != va.split():
+                    return f"<{ta.name} {k}={va!r}> is multi-valued here: expected the token list {va.split()!r}, got {vb!r} ({type(vb).__name__})"
+            elif type(vb) is not type(va) or vb != va:
+                return f"<{ta.name} {k}={va!r}> is not multi-valued here: expected it verbatim, got {vb!r} ({type(vb).__name__})"
+    return None
+
+
+def mva_stream(ctx):
+    for i in range(ctx.n(900, 15000)):
+        r = ctx.rng("mva", i)
+        if r.random() < 0.75:
+            nodes = gen_tree(r)
+
+            def enrich(nds):
+                out = []
+                for nd in nds:
+                    if nd[0] == "e":
+                        attrs = list(nd[2])
+                        for _ in range(r.choice([0, 1, 1, 2])):
+                            k = r.choice(MVA_NAMES)
+                            if k not in [x[0] for x in attrs]:
+                                attrs.append((k, None if r.random() < 0.1 else r.choice(MVA_VALUES)))
+                        nd = ("e", nd[1] if r.random() < 0.8 else r.choice(["a", "td", "th", "link", "form", "a"]) if not nd[3] and nd[1] in VOID else nd[1], attrs, enrich(nd[3]))
+                    out.append(nd)
+                return out
+            text = write(r, enrich(nodes), [], [0])
+        else:
+            text = gen_soup(r) + r.choice(["<p class>", "<td headers=''>", "<a rel=\" \" class='a  b'>", "<i class=a class=\"b c\">", ""]) + gen_soup(r)
+        cfgname = r.choice(list(MVA_CONFIGS))
+        try:
+            msg = mva_compare(text, cfgname)
+        except Exception as e:
+            from bs4.exceptions import ParserRejectedMarkup
+            if isinstance(e, ParserRejectedMarkup):
+                continue
+            msg = f"raised {type(e).__name__}: {e}"
+        ctx.case(("mva", text, cfgname) if "=" in text else None)
+        ctx.count("mva:" + cfgname)
+        if msg:
+            ctx.violation("multi_valued_attributes option: " + msg, case={"op": "mva", "text": text, "mva": cfgname}, observed=msg, stream="mva")
+
+
 def writer_stream(ctx, drv):
     """`emit_build : adapterBuild cfg (emit d c) = normalise cfg d` tied to the real code at both ends, for the documents of
     `gen_tree` (plus doctypes and `<![if …]>` declarations) and the choices the harness writer actually took:
@@ -952,6 +1024,7 @@ def run(ctx: Ctx):
     tk.written_stream(ctx, drv)
     # (5) the whole-document theorem: recorder = emit, real parse = normalise, for the writer's actual choices
     writer_stream(ctx, drv)
+    mva_stream(ctx)
     B = 20000
     for off in range(0, len(lines), B):
         rep = drv.ask(lines[off:off + B])
@@ -967,6 +1040,10 @@ def run(ctx: Ctx):
 def replay(path):
     v = json.load(open(path))
     c = v["case"]
+    if c.get("op") == "mva":
+        msg = mva_compare(c["text"], c["mva"])
+        print("text:", repr(c["text"])); print("multi_valued_attributes:", MVA_CONFIGS[c["mva"]]); print(msg or "as documented")
+        return 1 if msg else 0
     if "text" not in c:
         print(json.dumps(v, indent=1)[:3000]); return 1
     soup = real_parse(c["text"], c.get("opts", {}))
